@@ -179,11 +179,14 @@ def run_check(pid, tier, seed, procs, t0):
         for v in xr.get("violations", []):
             xviol.append((tgt, v))
     violations = []
+    import shutil
+
+    shutil.rmtree(os.path.join(HERE, "replays", pid), ignore_errors=True)
     os.makedirs(os.path.join(HERE, "replays", pid), exist_ok=True)
     # ---- triage refuted obligations
     seen_base = set()
     for o in refuted:
-        base = o["name"]
+        base = re.sub(r"\[k%\d+=\d+\]", "", o["name"])
         if base in seen_base:
             continue
         seen_base.add(base)
@@ -295,8 +298,10 @@ def run_check(pid, tier, seed, procs, t0):
         "wall_s": round(time.time() - t0, 2),
         "violations": len(violations),
     }
-    os.makedirs(os.path.join(HERE, "evidence"), exist_ok=True)
-    json.dump(ev, open(os.path.join(HERE, "evidence", "%s.json" % pid), "w"), indent=1, default=str)
+    # evidence is only written for /repo itself; runs against a scratch copy (mutation self-tests) go elsewhere
+    evdir = os.path.join(HERE, "evidence") if os.path.realpath(REPO) == "/repo" else os.path.join(HERE, "scratch", "evidence")
+    os.makedirs(evdir, exist_ok=True)
+    json.dump(ev, open(os.path.join(evdir, "%s.json" % pid), "w"), indent=1, default=str)
     # ---- report
     print("%s [%s] %d functions under contract, %d obligations, %d discharged, %d refuted, %d undecided, %.1fs" % (pid, tier, len(fucs), n_ob, n_dis, len(refuted), len(unknown) + len(undecided), time.time() - t0))
     for ln in kf_lines:
